@@ -387,6 +387,26 @@ func (fr *Frame) assumeSliceInv(v *SVal) {
 func (fr *Frame) oblige(kind, detail, cond string, clause string) {
 	x := fr.x
 	if cond == "true" {
+		// discharged syntactically by the generator's own simplification; recorded for
+		// clauses of the contract (not for the implicit safety conditions)
+		if !x.discover && (kind == "post" || kind == "guard" || kind == "pre" || kind == "lemma" || strings.HasPrefix(kind, "inv")) {
+			name := x.fnKey + "#" + kind
+			if detail != "" {
+				name += ":" + detail
+			}
+			if n := x.ordinal(name); n > 1 {
+				name = fmt.Sprintf("%s#%d", name, n)
+			}
+			x.obls = append(x.obls, &Obligation{Name: name, Kind: kind, Fn: x.fnKey, Props: x.props, Pos: x.em.Mark(), Goal: "false",
+				Expect: "unsat", Clause: clause, em: x.em, Result: "unsat", Solver: "syntactic"})
+		}
+		return
+	}
+	if c := x.w.contracts[x.fnKey]; c != nil && c.Lenient && kind != "guard" {
+		// lenient contracts claim their call-site guards only
+		if kind != "post" && kind != "frame" {
+			x.em.Assert(sImp(fr.curReach, cond))
+		}
 		return
 	}
 	key := kind + "|" + fr.curReach + "|" + cond
